@@ -1,12 +1,12 @@
 """C09 helpers: mesh / plane generators, the two-process session (harness/h_division.cpp = real code,
 lean/Driver/C09.lean = model), answer parsing and the independent oracles on the real result."""
-import os, math, subprocess, json
+import os, math, subprocess, json, threading, signal
 import vlib
 from vlib import Rng, fhex, unhex
 import remesh_common as RC
 
 HARNESS = os.path.join(vlib.VERIF, "harness", "h_division.cpp")
-OPAQUE = ("tri", "centroid", "axis", "axisfree", "divide", "popclear", "popadd", "round")   # answered by the real code only
+OPAQUE = ("tri", "centroid", "axis", "axisfree", "divide", "popclear", "popadd", "popready", "poptake", "round")   # answered by the real code only
 
 
 def build():
@@ -90,7 +90,9 @@ class Session:
 
     def __init__(self, exe, drv):
         self.exe, self.drv = exe, drv
-        self.h = subprocess.Popen([exe], stdin=subprocess.PIPE, stdout=subprocess.PIPE, stderr=subprocess.PIPE, env=vlib.ENV, text=True, bufsize=1)
+        self.env = dict(vlib.ENV)
+        self.env["ASAN_OPTIONS"] = self.env.get("ASAN_OPTIONS", "") + ":handle_abort=1"
+        self.h = subprocess.Popen([exe], stdin=subprocess.PIPE, stdout=subprocess.PIPE, stderr=subprocess.PIPE, env=self.env, text=True, bufsize=1)
         self.m = subprocess.Popen([drv], stdin=subprocess.PIPE, stdout=subprocess.PIPE, stderr=subprocess.PIPE, text=True, bufsize=1)
         self.trace = []
         self.crashed = None
@@ -107,10 +109,34 @@ class Session:
             a = ""
         return a
 
+    WATCHDOG_S = 90.0      # a request the real code does not answer within this time is reported ("the simulation continues")
+
     def impl(self, line):
         self.trace.append(line)
         self.n_lines += 1
+        fired = []
+        def bark():
+            fired.append(True)
+            try:
+                self.h.send_signal(signal.SIGABRT)      # ASan prints the stack of the stuck thread (handle_abort=1)
+            except Exception:
+                pass
+        wd = threading.Timer(self.WATCHDOG_S, bark)
+        wd.start()
         a = self._one(self.h, line)
+        wd.cancel()
+        if a == "" and fired:
+            err = ""
+            try:
+                self.h.wait(timeout=20); err = self.h.stderr.read()[-2500:]
+            except Exception:
+                try:
+                    self.h.kill()
+                except Exception:
+                    pass
+            self.crashed = {"line": line[:300], "rc": "watchdog", "stderr": "no answer within %g s; stack at abort: %s" % (self.WATCHDOG_S, err),
+                            "replay": list(self.trace), "hang": True}
+            return None
         if a == "":
             rc = None
             try:
@@ -141,7 +167,7 @@ class Session:
             self.h.kill()
         except Exception:
             pass
-        self.h = subprocess.Popen([self.exe], stdin=subprocess.PIPE, stdout=subprocess.PIPE, stderr=subprocess.PIPE, env=vlib.ENV, text=True, bufsize=1)
+        self.h = subprocess.Popen([self.exe], stdin=subprocess.PIPE, stdout=subprocess.PIPE, stderr=subprocess.PIPE, env=self.env, text=True, bufsize=1)
         self.crashed = None
 
     def close(self):
@@ -307,7 +333,7 @@ def daughters_oracle(mother_geo, ctr, axis, lmin, mtv, mtype, d1, d2, exact_volu
             bad.append("daughter %d has type %s, mother %s" % (k, d["type"], mtype))
         if d["tv"] != mtv / 2:
             bad.append("daughter %d has target volume %r, half of the mother's is %r" % (k, d["tv"], mtv / 2))
-    tol = (1e-9 if exact_volume else (vol_rel_tol if vol_rel_tol is not None else VOL_REL_TOL)) * abs(V)
+    tol = (1e-6 if exact_volume else (vol_rel_tol if vol_rel_tol is not None else VOL_REL_TOL)) * abs(V)
     if abs(vols[0] + vols[1] - V) > tol:
         bad.append("daughter volumes %g + %g differ from the mother's %g by %g (tolerance %g)" % (vols[0], vols[1], V, vols[0] + vols[1] - V, tol))
     return bad, (vols[0] + vols[1] - V) / abs(V) if V else 0.0
